@@ -25,7 +25,7 @@ SHARDS = {"quick": 16, "thorough": 16}
 FLOOR = {"quick": 300, "thorough": 5000}
 REQUIRED_COUNTERS = ["runs", "stage_faults_fired", "line_failpoints_fired", "write_faults_fired", "fs_events_observed",
                      "snapshots_compared", "noforce_runs", "force_runs", "fault_free_runs", "line_failpoints_enumerated"]
-RULE = ("configurations = 4 layouts x existing tree {equal, different, partial, interrupted (no client.py)} x force {off, on}; per configuration: fault-free run, "
+RULE = ("configurations = 4 layouts x existing tree {equal, different, partial, interrupted (no client.py), core edited, core partial} x force {off, on}; per configuration: fault-free run, "
         "every stage x {entry, exit}, every k-th write failing with ENOSPC, and LINE failpoints at the statements executed by the fault-free "
         "run (quick: every 6th, thorough: all); case = (configuration, fault); non-trivial = the fault point fired (or, fault-free, >=1 fs event)")
 ASSUMPTIONS = ["post-processing children (ruff/mypy) are not run; the post-processing stage is failed at entry",
@@ -95,6 +95,13 @@ def build_template(ctx: Ctx, layout: str, existing: str) -> tuple[Path, str, str
             # what a generation interrupted before the client stage leaves behind: no client.py, no mocks
             (out_dir / "client.py").unlink()
             shutil.rmtree(out_dir / "mocks")
+        core_dir = root.joinpath(*(core or pkg + ".core").split("."))
+        if existing == "core_edited":
+            # the client package matches; only a runtime file of the core differs from what would be generated
+            f = core_dir / "http_transport.py"
+            f.write_text(f.read_text() + "\n# edited by hand\nEDITED = 1\n")
+        if existing == "core_partial":
+            (core_dir / "pagination.py").unlink()
     return root, pkg, core
 
 
@@ -292,7 +299,7 @@ def run_shard(ctx: Ctx) -> None:
     stages = Stages()
     lines = LinePoints(stages)
     fsmon.MON.install()
-    configs = [(l, e, f) for l in LAYOUTS for e in ("equal", "different", "partial", "interrupted") for f in (False, True)]
+    configs = [(l, e, f) for l in LAYOUTS for e in ("equal", "different", "partial", "interrupted", "core_edited", "core_partial") for f in (False, True)]
     mine = [c for i, c in enumerate(configs) if ctx.mine(i)]
     for layout, existing, force in mine:
         tmpl, pkg, core = build_template(ctx, layout, existing)
